@@ -393,6 +393,23 @@ theorem definition_uses_current_annotations (len : Int) (ops : List Op) (r : Rec
   · rintro ⟨h1, h2, h3⟩
     exact ⟨g, ⟨hg, ⟨h1, h2⟩, by simpa using h3⟩, rfl⟩
 
+/-- every `add_cds` re-evaluates: whatever the record looks like — in particular if the protocluster already lists
+    the gene — after `collection.add_cds(gene)` every protocluster the gene is handed to that contains it in its
+    core and whose product the gene *now* carries a core annotation for has it as a defining gene -/
+theorem add_cds_reevaluates_definition (r : Rec) (g : Gene) (a : AreaT) (d : AreaT) (s : Section)
+    (hd : (d, s) ∈ downNodes g none a) (hdef : defines g d = true) :
+    (d.id, g.id) ∈ (pushDown g none a r).defs :=
+  ((pushDown_eff g none a r).defs _).2 (Or.inr ⟨(g, d, s), List.mem_map.2 ⟨(d, s), hd, rfl⟩, hdef, rfl⟩)
+
+/-- … so a gene annotated after its protocluster listed it becomes a defining gene as soon as a candidate cluster
+    or region hands it to the protocluster again (`runLoose`: annotation rewrites at any time) -/
+theorem relisted_gene_is_reevaluated (r : Rec) (g : Gene) (a : AreaT) (d : AreaT) (s : Section)
+    (_hlisted : (d.id, g.id) ∈ r.members) (hc : containedBy g.loc a.loc = true)
+    (hd : (d, s) ∈ downNodes g none a) (hdef : defines g d = true) :
+    ∃ r', areaAddCds r a g = .ok r' ∧ (d.id, g.id) ∈ r'.defs := by
+  refine ⟨pushDown g none a r, by simp [areaAddCds, hc, pure, Except.pure], ?_⟩
+  exact add_cds_reevaluates_definition r g a d s hd hdef
+
 /-- a sideloaded protocluster (`SideloadedProtocluster`) never has defining genes -/
 theorem sideloaded_defines_nothing (len : Int) (ops : List Op) (r : Rec) (hok : HistoryOK ops) (hrun : run len ops = .ok r)
     (a : AreaT) (ha : a ∈ opsAreas ops) (d : AreaT) (hd : d ∈ nodes a) (hk : d.kind = .sideProto) :
@@ -632,6 +649,19 @@ example : (run 400 [.cds { id := 0, loc := .simple ⟨100, 160, .fwd⟩, cores :
       .area (.mk 100 .proto (.simple ⟨50, 350, .fwd⟩) (.simple ⟨90, 300, .fwd⟩) "a" []),
       .area (.mk 101 .proto (.simple ⟨50, 350, .fwd⟩) (.simple ⟨90, 300, .fwd⟩) "b" [])]).toOption.map
       (fun r => (r.definition 100, r.definition 101)) = some ([], [0]) := by
+  decide +kernel
+
+/-- the round-7 seed's history: gene, protocluster "a" (gene listed, not annotated), core annotation "a" added, then
+    the candidate cluster hands the gene over again — it now defines the protocluster; the spec's replay agrees -/
+example : ((runLoose 400 [.cds { id := 0, loc := .simple ⟨100, 160, .fwd⟩ },
+      .area (.mk 100 .proto (.simple ⟨50, 350, .fwd⟩) (.simple ⟨90, 300, .fwd⟩) "a" []), .setCores 0 ["a"],
+      .area (.mk 300 .cand (.simple ⟨50, 350, .fwd⟩) (.simple ⟨50, 350, .fwd⟩) ""
+        [.mk 100 .proto (.simple ⟨50, 350, .fwd⟩) (.simple ⟨90, 300, .fwd⟩) "a" []])]).toOption.map (·.definition 100),
+    specDefsAfter [.cds { id := 0, loc := .simple ⟨100, 160, .fwd⟩ },
+      .area (.mk 100 .proto (.simple ⟨50, 350, .fwd⟩) (.simple ⟨90, 300, .fwd⟩) "a" []), .setCores 0 ["a"],
+      .area (.mk 300 .cand (.simple ⟨50, 350, .fwd⟩) (.simple ⟨50, 350, .fwd⟩) ""
+        [.mk 100 .proto (.simple ⟨50, 350, .fwd⟩) (.simple ⟨90, 300, .fwd⟩) "a" []])])
+    = (some [0], [(100, 0)]) := by
   decide +kernel
 
 end ASV.C08
